@@ -2,6 +2,7 @@ import Xandikos.Driver.StoreDriver
 import Xandikos.Driver.PyDriver
 import Xandikos.Driver.HttpDriver
 import Xandikos.Driver.PureDriver
+import Xandikos.Driver.CardDriver
 
 partial def loop {σ : Type} (h : IO.FS.Stream) (out : IO.FS.Stream) (st : σ)
     (step : σ → String → σ × String) : IO Unit := do
@@ -17,6 +18,7 @@ def main (args : List String) : IO UInt32 := do
   match args with
   | ["store"] => loop stdin stdout ({} : Xandikos.StoreDriver.DState) Xandikos.StoreDriver.step; return 0
   | ["http"] => loop stdin stdout ({} : Xandikos.HttpDriver.HState) Xandikos.HttpDriver.step; return 0
+  | ["card"] => loop stdin stdout ({} : Xandikos.CardDriver.CState) Xandikos.CardDriver.step; return 0
   | ["pure"] => loop stdin stdout () Xandikos.PureDriver.step; return 0
   | ["pyurl"] => loop stdin stdout () Xandikos.PyDriver.urlStep; return 0
   | ["pyini"] => loop stdin stdout () Xandikos.PyDriver.iniStep; return 0
